@@ -353,6 +353,37 @@ def session_equivalence(ctx: Ctx):
     ctx.coverage["oracle"]["whole_session_equivalence"] = 6
 
 
+# subclasses of dict whose == is not the == of dict (OrderedDict: order-sensitive between two OrderedDicts; Counter: missing = 0): active without flags vs inactive
+DICTSUB_SRC = """from collections import OrderedDict, Counter
+from inline_snapshot import snapshot
+R = []
+
+
+def test_a():
+    R.append(OrderedDict([("b", 1), ("a", 2)]) == snapshot(OrderedDict([("a", 2), ("b", 1)])))
+    R.append(OrderedDict([("a", 2), ("b", 1)]) == snapshot(OrderedDict([("a", 2), ("b", 1)])))
+    R.append(Counter(a=1, b=0) == snapshot(Counter(a=1)))
+    R.append({"a": 2, "b": 1} == snapshot(OrderedDict([("a", 2), ("b", 1)])))
+    R.append(OrderedDict([("a", 2)]) == snapshot({"a": 2}))
+    R.append(Counter(a=1) == snapshot(Counter(a=1)))
+"""
+
+
+def run_dictsub(active):
+    r = driver.run_inproc({"test_a.py": DICTSUB_SRC}, (), active=active)
+    return {"R": r["R"].get("test_a.py"), "exc": r["session_exc"] or r["module_exc"]}
+
+
+def dict_subclasses(ctx: Ctx):
+    a, b = tmap(run_dictsub, [True, False])
+    ctx.count(("dict-subclasses",), True)
+    if a["exc"] or b["exc"] or a["R"] != b["R"]:
+        known = (not a["exc"] and not b["exc"] and a["R"] == [True, True, False, True, True, True] and b["R"] == [False, True, True, True, True, True])
+        ctx.report(f"C06 oracle: comparisons of OrderedDict / Counter values with snapshots give {a['R']} with inline-snapshot active (no flags) and {b['R']} when it is inactive "
+                   f"({a['exc'] or b['exc'] or 'no exception'})", {"kind": "dictsub"}, tag="F-90" if known else None)
+    ctx.coverage["oracle"]["dict_subclass_comparisons"] = 6
+
+
 def run(ctx: Ctx):
     ctx.coverage["rule"] = (
         "A: single-site scripts (as C05) with no flags and with random flags, results vs Model/SnapOps.v and vs the same comparison on the plain value; "
@@ -361,6 +392,7 @@ def run(ctx: Ctx):
         "inline-snapshot inactive; the three result lists must coincide and no file may change. C: real sessions with disable / CI / xdist / xfail: snapshot(v) is v. "
         "non-trivial = >= 2 comparisons or nested value")
     proof_step(ctx)
+    dict_subclasses(ctx)
     n = 1500 if not ctx.thorough else 12000
     cases = []
     while len(cases) < n:
